@@ -91,6 +91,9 @@ class ConnRun:
     def possible(self, e):
         a = e["a"]
         cb = e.get("cb")
+        if cb and cb["a"] != "none" and a == "Close":
+            ok = lambda i: i in self.ds and i not in self.done
+            return cb["a"] == "Cancel" and e["id"] != cb["id"] and ok(e["id"]) and ok(cb["id"]) and not self.closed
         if cb and cb["a"] != "none":
             if a not in ("Frame", "Rest", "Cancel"):
                 return False
@@ -298,6 +301,9 @@ def random_schedule_run(seed, length, max_ids=8):
             add(1, "Cancel", j, 0, some_cb(j))
         add(1, "Disconnect")
         add(0.4, "Close")
+        if len(pend) >= 2:
+            i_, j_ = rng.sample(pend, 2)
+            add(0.4, "Close", i_, 0, {"a": "Cancel", "id": j_, "x": 0})
         add(0.5, "Readdress", 0, rng.choice([1, 2]))
         if not cands:
             break
